@@ -77,6 +77,7 @@ func (v *Verdict) Harness(format string, a ...any) *Verdict {
 
 // Ctx is what a world gets for one run.
 type Ctx struct {
+	childTmp string // TMPDIR handed to child processes when it is not Dir
 	T    *testing.T
 	Seed uint64
 	Tier string
